@@ -64,6 +64,9 @@ func gNode(n *dyntpl.VerifNode) string {
 		return fmt.Sprintf("NTpl %s %s %s %s %s", gBytes(n.Raw), gBytes(n.Prefix), gBytes(n.Suffix), gBool(n.Noesc), gMods(n.Mod))
 	case 2:
 		return fmt.Sprintf("NCond (mkCond %s %s %s %s %s %s %s %s) %s", gBytes(n.CondL), gBytes(n.CondR), gBool(n.CondStaticL), gBool(n.CondStaticR), gOp(n.CondOp), gBytes(n.CondHlp), gArgs(n.CondHlpArg), gLC(n.CondLC), gNodes(n.Child))
+	case 3:
+		return fmt.Sprintf("NCondOK (mkOk %s %s %s) (mkCond %s %s %s %s %s %s %s %s) %s", gBytes(n.CondOKL), gBytes(n.CondOKR), gBytes(n.CondIns),
+			gBytes(n.CondL), gBytes(n.CondR), gBool(n.CondStaticL), gBool(n.CondStaticR), gOp(n.CondOp), gBytes(n.CondHlp), gArgs(n.CondHlpArg), gLC(n.CondLC), gNodes(n.Child))
 	case 4:
 		return fmt.Sprintf("NBlock BTrue no_case %s", gNodes(n.Child))
 	case 5:
